@@ -150,7 +150,8 @@ def reduce_roundtrip(obj):
 
     def dump(o):
         if isinstance(o, StrBase):
-            f, args, state = o.__reduce_ex__(4)[:3]
+            rv = tuple(o.__reduce_ex__(4))
+            f, args, state = (rv + (None, None))[:3]
             return ("obj", f, tuple(dump(a) if isinstance(a, StrBase) else a for a in args), dump(state))
         if isinstance(o, dict):
             return ("dict", [(k, dump(v)) for k, v in o.items()])
